@@ -198,6 +198,16 @@ class Sequence:
         chain = [(1 if r in targets else 0) for r in self.seq]
         return sum(chain[i:i + w]) / w
 
+    # ---- C11: Wootton-Federhen complexity of one window = Shannon entropy of its composition, base |alphabet|
+    def win_entropy(self, reduced, alphabet, w, step):
+        window = reduced[step:step + w]
+        h = 0
+        for x in alphabet:
+            p = window.count(x) / w
+            if p > 0:
+                h = h - p * np.log(p, len(alphabet))
+        return h
+
     # ---- C07: Sawle-Ghosh sequence charge decoration, residues numbered 1..N
     def sequence_charge_decoration(self):
         total = 0
